@@ -187,7 +187,10 @@ def emit_module(classes: list[dict], postponed: bool, uid: int) -> tuple[str, Em
     em = Emitter(uid, postponed)
     body = ""
     for c in classes:
-        base = "ASTNode" if c["base"] is None else em.node_name(c["base"])
+        if c.get("bases"):
+            base = ", ".join(em.node_name(b) for b in c["bases"])
+        else:
+            base = "ASTNode" if c["base"] is None else em.node_name(c["base"])
         body += f"\n@dataclass(frozen=True{', kw_only=True' if c.get('kw_only') else ''})\nclass {em.node_name(c['name'])}({base}):\n"
         if not c["fields"]:
             body += "    pass\n"
